@@ -12,6 +12,12 @@
 //   PLANT b v i   an attacker edits the jar: an old token (live, cleared, reset, expired, somebody else's), a malformed
 //                 identifier derived from an issued one (upper case, shorter, longer, non-hex), path-like identifiers, kind
 //                 confusion, garbage
+// Keys are the short table names or synthesized keys of every length 1..1023 with a deliberate share at 1022..1025; values
+// include (rarely, plus a deterministic grid unit `--grid` once per run) 2 MiB - 2 .. 2 MiB + 1 bytes: the edge of the packed
+// entry header (10 bit key size, 21 bit value size).  Key / value bytes at the edge are themselves well-formed packed entries,
+// so a header that wrapped to size 0 would make the next load read injected keys.  A save that cannot represent an entry has to
+// be refused (cppcms_error from save(), nothing stored or sent, old state stays); whatever a save accepts must be read back
+// exactly by the next request.
 // Oracle: the reference model of c06_model.h run in lock-step (what a request reads is exactly the snapshot its token names or
 // nothing), plus: fresh 'I'+32 lower-case-hex identifiers on creation / reset; the old identifier of a cleared / reset / moved
 // session is dead (probed at once through a fresh browser, later through attacker requests, and directly in the storage);
@@ -659,11 +665,11 @@ static rc::Gen<std::string> genValue(int limit) {
 static rc::Gen<SubOp> genSubOp(int limit) {
     using namespace rc;
     // keys: mostly the short table, a share of synthesized keys of every length 1..1023 and a deliberate share at the boundary
-    Gen<int> key = gen::weightedOneOf<int>({{32, vr::range<int>(0, NKEYS)},
-                                            {2, gen::map(gen::tuple(vr::range<int>(1, 1024), vr::range<int>(0, 8)), [](std::tuple<int, int> t) { return key_code(std::get<0>(t), std::get<1>(t)); })},
-                                            {2, gen::map(gen::tuple(gen::element(1022, 1023, 1023, 1024, 1024, 1025), vr::range<int>(0, 8)), [](std::tuple<int, int> t) { return key_code(std::get<0>(t), std::get<1>(t)); })}});
-    long big_w = vr::envl("C06_BIG_WEIGHT", 1);     // 2 MiB values are expensive: about one operation in 1500 (the grid unit guarantees them)
-    return gen::mapcat(gen::weightedElement<int>({{600, O_SET}, {150, O_ERASE}, {50, O_CLEAR}, {150, O_EXPOSE}, {50, O_HIDE}, {100, O_AGE}, {50, O_DEF_AGE}, {100, O_EXPIRATION}, {50, O_DEF_EXP}, {100, O_ON_SERVER}, {100, O_RESET}, {(size_t)big_w, O_SET_BIG}}), [limit, key](int kind) {
+    Gen<int> key = gen::weightedOneOf<int>({{48, vr::range<int>(0, NKEYS)},
+                                            {1, gen::map(gen::tuple(vr::range<int>(1, 1024), vr::range<int>(0, 8)), [](std::tuple<int, int> t) { return key_code(std::get<0>(t), std::get<1>(t)); })},
+                                            {1, gen::map(gen::tuple(gen::element(1022, 1023, 1023, 1024, 1024, 1025), vr::range<int>(0, 8)), [](std::tuple<int, int> t) { return key_code(std::get<0>(t), std::get<1>(t)); })}});
+    long big_w = vr::envl("C06_BIG_WEIGHT", 1);     // 2 MiB values are expensive: about one operation in 6000 (the grid unit guarantees them)
+    return gen::mapcat(gen::weightedElement<int>({{2400, O_SET}, {600, O_ERASE}, {200, O_CLEAR}, {600, O_EXPOSE}, {200, O_HIDE}, {400, O_AGE}, {200, O_DEF_AGE}, {400, O_EXPIRATION}, {200, O_DEF_EXP}, {400, O_ON_SERVER}, {400, O_RESET}, {(size_t)big_w, O_SET_BIG}}), [limit, key](int kind) {
         Gen<int> num = kind == O_AGE ? gen::element(1, 2, 5, 7, 10, 20, 30, 100, 1000, 86400) : kind == O_SET_BIG ? vr::range<int>(0, 12) : vr::range<int>(0, 6);
         Gen<std::string> val = kind == O_SET ? genValue(limit) : gen::just(std::string());
         return gen::map(gen::tuple(key, num, val), [kind](std::tuple<int, int, std::string> t) { SubOp o; o.kind = kind; o.key = std::get<0>(t); o.num = std::get<1>(t); o.val = std::get<2>(t); return o; });
